@@ -119,7 +119,8 @@ int cp_pokdl_ver(const bn_t c, const bn_t r, const ec_t y) {
 		md_map(h, bin, sizeof(bin));
 		bn_read_bin(v, h, RLC_MD_LEN);
 		bn_mod(v, v, n);
-		if (bn_cmp(v, c) == RLC_EQ) {
+		if (bn_cmp(v, c) == RLC_EQ && bn_sign(r) == RLC_POS &&
+				bn_cmp(r, n) == RLC_LT) {
 			result = 1;
 		}
 	}
@@ -247,7 +248,16 @@ int cp_pokor_ver(const bn_t c[2], const bn_t r[2], const ec_t y[2]) {
 		bn_sub(z, z, c[1]);
 		bn_mod(z, z, n);
 
-		if (bn_is_zero(z)) {
+		/* Challenges and responses must be reduced modulo the order. */
+		int range = 1;
+		for (int i = 0; i < 2; i++) {
+			if (bn_sign(c[i]) == RLC_NEG || bn_cmp(c[i], n) != RLC_LT ||
+					bn_sign(r[i]) == RLC_NEG || bn_cmp(r[i], n) != RLC_LT) {
+				range = 0;
+			}
+		}
+
+		if (range && bn_is_zero(z)) {
 			result = 1;
 		}
 	}
